@@ -161,7 +161,7 @@ def path_cases(draw, max_frames=12, max_atoms=4, min_frames=2, min_atoms=1, spec
         'symbols': symbols,
         'species_kind': draw(st.sampled_from(['Species', 'Element'])),
         'path': path.tolist(),
-        'time_step': draw(st.sampled_from([0.5e-15, 1e-15, 2e-15, 5e-15])),
+        'time_step': draw(st.sampled_from([0.5e-15, 1e-15, 2e-15, 5e-15, 1.2345678e-15, 0.7071067811865476e-15])),
         'temperature': draw(st.sampled_from([100.0, 300.0, 650.5, 1500.0])),
     }
 
